@@ -16,9 +16,4 @@ def halfDraw : List String := ["col, row := win.Origin()",
 
 def fullDrawLoop : List String := ["for i, cell := range fb.cells { y := i / fb.width x := i - (y * fb.width) win.SetCell(x, y, Cell{ Character: Character{ Grapheme: \" \", Width: 1, }, Style: Style{ Background: cell, }, }) }"]
 
-def renderPlacementLoops : List String := ["outerLast: for _, p1 := range vx.graphicsLast { if vx.refresh { p1.deleteFn(vx.tw) continue } for _, p2 := range vx.graphicsNext { if samePlacement(p1, p2) { continue outerLast } } p1.deleteFn(vx.tw) }",
-  "if vx.refresh { vx.graphicsLast = []*placement{} }",
-  "outerNew: for _, p1 := range vx.graphicsNext { for _, p2 := range vx.graphicsLast { if samePlacement(p1, p2) { continue outerNew } } _, _ = vx.tw.WriteString(tparm(cup, p1.row+1, p1.col+1)) p1.writeTo(vx.tw) }",
-  "vx.graphicsLast = vx.graphicsNext"]
-
 end VaxisModel.Lemmas.ImageFlowExpected
